@@ -138,6 +138,13 @@ def run(tier, seed):
     import readertie
     tie_pairs = readertie.compute()
     tie_cov = readertie.report(rep, PID, tie_pairs)
+    # T-gen for the hand-written codecs of the built-in types: the parameters of the model's codecs (`primKind`) against reader, writer and size()
+    import manual_codecs
+    manual = manual_codecs.check()
+    for it in manual:
+        if it["differences"]:
+            rep.violation(f"C01/manual-codec/{it['type']}", f"{it['file']}: the hand-written codec of {it['type']} is not the codec the semantics uses: " + "; ".join(it["differences"]),
+                          dict(it, theorem="WowVerif.Sem.rtPrim (Lemmas/SemLeaf.lean) is about the model's codec"), no_input=True)
     rc, out, har = harness_build("world")
     if rc != 0:
         rep.violation("C01/harness-build", "harness does not build against /repo", {"log": out[-3000:]}, no_input=True)
@@ -392,9 +399,10 @@ def run(tier, seed):
         "checker_cmd": "cd /verif/lean && lake build WowVerif.Thm.C01 WowVerif.Thm.C01b WowVerif.Thm.C01c WowVerif.Thm.C01d && lake env lean WowVerif/Thm/C01d.lean",
         "trusted_base": TRUSTED_BASE_COMMON + ["tools/wowm.py + tools/corpus.py translate the wowm sources into the closed syntax of Model/Sem.lean (independent of wow_message_parser)",
                                                "framing of the generated bodies follows C02's header rules (python)",
-                                               "tools/rust_codec.py translates the generated readers (read_inner / read) into the closed syntax: wire operations, loops and conditionals; NOT the value plumbing into the result, the size / allocation guards (C09 / C03), compressed readers or the hand-written readers of built-in types (`prim` leaves on both sides)"],
+                                               "tools/rust_codec.py translates the generated readers (read_inner / read) into the closed syntax: wire operations, loops and conditionals; NOT the value plumbing into the result, the size / allocation guards (C09 / C03), compressed readers or the hand-written readers of built-in types (`prim` leaves on both sides)",
+                                               "tools/manual_codecs.py reads pattern widths, slot counts and element layouts of the hand-written mask codecs and the head/tail shape of NamedGuid / VariableItemRandomProperty; the model's codecs for the built-in types (Model/Sem.lean encPrim / decPrim) are hand transcriptions tied by that and by the value stream"],
         "theorems": po["theorems"],
-        "reader_tie": tie_cov,
+        "reader_tie": tie_cov, "manual_codecs_compared": len(manual), "manual_codecs_equal": sum(1 for it in manual if not it["differences"]),
         "containers_total": len(conts), "containers_exercised": covered,
         "containers_outside_model": {"compressed (translator)": len(uns), **{f"built-in {k}": v for k, v in uns_kinds.items()}},
         "evaluations": len(hreq) + len(zreq), "distinct_nontrivial": len(distinct), "frames_ok": n_ok, "boundary_length_frames": n_boundary, "compressed_stream": {"frames": len(zreq), "ok": n_zok}, "dictionary_stream": {"values_login": len(pool_login), "values_world": len(pool_world), "frames": len(dreq_), "identical": n_dict_ok},
